@@ -67,7 +67,44 @@ def _close(a, b, scale):
     return a.shape == b.shape and np.all(np.abs(a - b) <= 1e-9 * (1 + scale))
 
 
+def _special_squared_norm(case):
+    """recorded finding C09-squared-norm-at-origin: a smooth strictly convex ridge objective written with native norms,
+    ||A x - b||^2 + 0.1 ||x||^2, solved from the default start point x0 = 0.  d||x||/dx = x/||x|| is 0/0 there, the outer
+    factor 2||x|| = 0 makes the entry NaN, and sanitising the NaN to 0 also erases the finite contributions of every other
+    term of that entry: the solver sees a zero gradient and stops at the start point with status OPTIMAL."""
+    from optyx import Problem, VectorVariable
+    from optyx.core.vectors import norm
+    classes = ["special:squared-norm-at-origin"]
+    A = np.array([[2.0, 0.0, 1.0], [0.0, 1.0, 1.0], [1.0, -1.0, 0.0], [0.5, 0.5, 2.0]])
+    b = np.array([3.0, 1.0, 1.0, 2.0])
+    xstar = np.linalg.solve(A.T @ A + 0.1 * np.eye(3), A.T @ b)
+    f = lambda z: float(np.sum((A @ z - b) ** 2) + 0.1 * np.sum(z * z))
+    with quiet():
+        x = VectorVariable("x", 3)
+        try:
+            sol = Problem().minimize(norm(A @ x - b) ** 2 + 0.1 * norm(x) ** 2).solve(method=case.get("method", "SLSQP"))
+        except Exception as ex:
+            classes.append("special:raises:" + exc_label(ex))
+            return Result.ok(True, classes)
+    if sol.status.value != "optimal":
+        classes.append("special:status:" + sol.status.value)
+        return Result.ok(True, classes)
+    xs = np.array([sol.values[f"x[{i}]"] for i in range(3)])
+    gap = f(xs) - f(xstar)
+    if gap > 1e-5 * (1 + abs(f(xstar))):
+        return Result.violation("optimal-at-start-point:squared-norm",
+                                f"status OPTIMAL at x = {xs.tolist()} with f - f* = {gap:.3g} (closed-form optimum {xstar.tolist()}); "
+                                f"raw SciPy converges from the same start point", classes)
+    return Result.ok(True, classes)
+
+
+def _known_squared_norm(case, res):
+    return case.get("special") == "squared-norm-at-origin" and res.label == "optimal-at-start-point:squared-norm"
+
+
 def check(case):
+    if case.get("special") == "squared-norm-at-origin":
+        return _special_squared_norm(case)
     from scipy.optimize import minimize as raw_minimize
 
     model, method = case["model"], case["method"]
@@ -229,4 +266,4 @@ def check(case):
     return Result.ok(bool(nontrivial), sorted(set(classes)))
 
 
-KNOWN = {}
+KNOWN = {"C09-squared-norm-at-origin": _known_squared_norm}
